@@ -189,7 +189,7 @@ impl std::ops::Neg for Tok {
 }
 
 /// what the history interpreter needs from an element type
-pub trait Elem: Sized + 'static {
+pub trait Elem: Sized + Default + 'static {
     const ZST: bool;
     /// does `Clone::clone` mark the payload (so that clones are visible)?
     const MARKS_CLONES: bool = false;
@@ -253,7 +253,7 @@ impl Elem for [u64; 3] {
 
 /// an element with a non-trivial `Clone` but *no* drop glue (`needs_drop` is false): a clone is
 /// one generation older than its original
-#[derive(Debug, PartialEq)]
+#[derive(Debug, PartialEq, Default)]
 pub struct Cm {
     pub v: u32,
     pub generation: u32,
